@@ -161,6 +161,14 @@ def harness_run(prop, tier, seed, extra=None):
 
 # --------------------------------------------------------------------------- findings
 
+def merge_counts(dicts):
+    out = {}
+    for d in dicts:
+        for k, v in d.items():
+            out[k] = out.get(k, 0) + v
+    return out
+
+
 def load_known():
     p = os.path.join(VERIF, "known_findings.json")
     if not os.path.exists(p):
@@ -360,6 +368,7 @@ def main(argv):
         "distinct_nontrivial": sum(p.get("distinct_nontrivial", 0) for p in parts),
         "model_ops_compared": sum(p.get("model_ops", 0) for p in parts),
         "oracle_checks": sum(p.get("oracle_checks", 0) for p in parts),
+        "oracle_clauses": merge_counts([p.get("oracle_clauses", {}) for p in parts]),
         "disagreements_checked": n_dis,
         "bitwise_mismatches": sum(p.get("bitwise_mismatches", 0) for p in parts),
         "float_fields_compared": sum(p.get("float_fields", 0) for p in parts),
